@@ -185,6 +185,33 @@ def handle (l : String) : String :=
         else true
       verdict' m go specOk "batch-first-failure-differs-from-one-by-one"
     | _, _, _, _, _ => "bad-op\tagree"
+  | ["ihc", cs, now, st, bs] =>
+    -- HeaderChain.ValidateHeaderChain / BlockChain.InsertHeaderChain on the real chain: outcome, number of batch headers newly
+    -- stored after a rejection, head changed after a rejection
+    match parseCfg cs, now.toNat?, parseHeaders st, parseHeaders bs with
+    | some (ci, csp), some now, some stored, some batch =>
+      let chain := chainOf stored []
+      let seals := batch.map (fun _ => true)
+      let render (r : ImportResult) : String := match r with
+        | .accepted => "ok"
+        | .nonContiguous => "err noncontiguous 0 0"
+        | .rejected i e => "err " ++ toString i ++ " " ++ e.name ++ " 0 0"
+      let m := render (validateHeaderChain (envImpl ci now 0) chain batch seals (List.range batch.length).reverse)
+      -- Spec: accepted iff linked and valid one by one; a refused batch leaves nothing behind
+      let spec : ImportResult :=
+        if contiguous batch then
+          (match sequentialFirstFailure (envSpec csp now 0) seals chain batch 0 with
+           | none => .accepted
+           | some (i, e) => .rejected i e)
+        else .nonContiguous
+      let specOk :=
+        if csp.ordered && closedFor chain batch && (batch.head?.map (fun h => decide (h.number ≥ 1))).getD true then
+          (match spec with
+           | .accepted => go == "ok"
+           | _ => go.startsWith "err " && go.endsWith " 0 0")
+        else true
+      verdict' m go specOk "header-batch-import-differs-from-one-by-one-or-leaves-headers-behind"
+    | _, _, _, _ => "bad-op\tagree"
   | ["unc", cs, fl, st, bl] =>
     match parseCfg cs, fl.toNat?, parseBlocks st, parseBlock bl with
     | some (ci, csp), some fail, some stored, some block =>
